@@ -15,7 +15,16 @@ VARIABLES rule, mem, pmem    \* current rule, current and previous memory readin
 
 mvars == <<rule, mem, pmem>>
 Init == rule \in { r \in Rules : Valid(r) } /\ mem \in Mems /\ pmem = mem
-Next == \E m \in Mems : mem' = m /\ pmem' = mem /\ UNCHANGED rule
+Probe  == \E m \in Mems : mem' = m /\ pmem' = mem /\ UNCHANGED rule
+\* the rule is replaced under traffic (flow.LoadRules): the calculator has no state, the envelope is that of the NEW rule
+\* from the next probe on; "monotone between consecutive probes" compares probes of one rule only
+\* (one field at a time: the state after a reload is an initial state of the new rule, so nothing else is reachable)
+LowVals == { r.low : r \in Rules }   HighVals == { r.high : r \in Rules }
+LwVals  == { r.lw : r \in Rules }    HwVals   == { r.hw : r \in Rules }
+Changed == { [rule EXCEPT !.low = v] : v \in LowVals } \cup { [rule EXCEPT !.high = v] : v \in HighVals }
+           \cup { [rule EXCEPT !.lw = v] : v \in LwVals } \cup { [rule EXCEPT !.hw = v] : v \in HwVals }
+Reload == \E r2 \in Changed : Valid(r2) /\ r2 # rule /\ rule' = r2 /\ pmem' = mem /\ UNCHANGED mem
+Next == Probe \/ Reload
 Spec == Init /\ [][Next]_mvars
 
 E == Eff(rule, mem)
